@@ -14,6 +14,8 @@ var pools = [][]uint{
 	{8, 7, 6, 5, 4, 3, 2, 1},
 	{100, 70, 20, 10, 5, 3, 2, 1},
 	{1 << 40, 1<<32 - 1, 1 << 31, 1000000000, 1000000, 1000, 7, 1},
+	// values p for which p*(1/p) != 1 in float64, and their halves' neighbours
+	{107, 103, 100, 98, 51, 49, 47, 2},
 }
 
 // subsets of a descending pool, as descending lists
